@@ -60,6 +60,11 @@ def build(seed, tier):
     if with_helper and rc.random() < 0.4:
         stmts.append(['from helper import hdouble as hd2'])
         stmts.append(['print(hd2(4))'])
+    if with_helper and rc.random() < 0.35:
+        # the FIRST import of the second file is a from-import, the plain import (or another from-import) follows
+        stmts.insert(len(histories.LIBRARY), ['from helper import hdiv as hd0'])
+        stmts.append(['from helper import hshow as hs9'])
+        stmts.append(['print(hd0(5), hs9(1))'])
     late_import = with_helper and rc.random() < 0.5
     if late_import:
         # a function that imports the second file when it is CALLED: the module was imported by the program's own
@@ -85,6 +90,9 @@ def build(seed, tier):
                     op['kwargs_locals'] = ro.choice([{'b': 'counter'}, {'c': 'counter + 1'}])
             if fn in ('echo', 'ident', 'size') and ro.random() < 0.2:
                 op['args_locals'] = [ro.choice(['counter', 'str(counter)', '[counter, counter]'])]
+            if fn in ('quiet', 'biggest') and ro.random() < 0.3:
+                # fewer (or sparser) local expressions than positional values: the rest stays positional
+                op['args_locals'] = ro.choice([['counter'], [None, 'counter'], ['counter', 'counter + 1'], [None, None]])
             if ro.random() < 0.12:
                 op['target'] = ro.choice(['result_box', 'answer_value'])
         elif c < 0.75 and gen_funcs:
